@@ -1,6 +1,7 @@
 """C12 - primitive value types denote exactly their wire domains."""
 import datetime
 import io
+import json
 import random
 import struct
 
@@ -16,6 +17,11 @@ def py_of(v):
     k = v[0]
     if k == "none":
         return None
+    if k == "other":
+        import decimal
+        import fractions
+        return {"bytearray": bytearray(b"ab"), "memoryview": memoryview(b"ab"), "list": [1], "tuple": (1,), "decimal": decimal.Decimal(1),
+                "fraction": fractions.Fraction(1), "complex": complex(1), "date": datetime.date(2024, 1, 1), "time": datetime.time(1, 2)}[v[1]]
     if k in ("bool", "int"):
         return v[1]
     if k == "float":
@@ -39,8 +45,8 @@ def py_of(v):
 
 def coq_of(v):
     k = v[0]
-    if k == "none":
-        return "PyNone"
+    if k in ("none", "other"):
+        return "PyNone"         # for the model: an object of no relevant type
     if k == "bool":
         return f"(PyBool {'true' if v[1] else 'false'})"
     if k == "int":
@@ -82,6 +88,8 @@ def doc_member(name, v):
         return (v[1] and v[2] >= 0) if k == "dt" else False
     if name == "TZAware":
         return (v[1] and v[2] >= 0 and v[2] % 1000 == 0) if k == "dt" else False
+    if name == "Records":
+        return k == "bytes"          # immutable byte strings only
     return None
 
 
@@ -116,6 +124,8 @@ def run(ctx):
 
     vals = int_vals()
     vals += [("bool", True), ("bool", False), ("none",), ("str", b""), ("str", b"12"), ("bytes", b""), ("bytes", b"\x00\x01")]
+    # objects of unrelated (but tempting) types: members of nothing
+    vals += [("other", k) for k in ("bytearray", "memoryview", "list", "tuple", "decimal", "fraction", "complex", "date", "time")]
     for bits in (0, 1 << 63, 0x3FF0000000000000, 0x7FF0000000000000, 0xFFF0000000000000, 0x7FF8000000000000, 0x7FF0000000000001,
                  0x7FEFFFFFFFFFFFFF, 1, 0x000FFFFFFFFFFFFF, 0x4059000000000000):
         vals.append(("float", bits))
@@ -216,6 +226,32 @@ def run(ctx):
                 same = back == expect and (name != "f64" or struct.pack(">d", back) == struct.pack(">d", py))
                 if not same:
                     prop_bad.append({"type": name, "value": repr(py)[:80], "what": f"member read back as {back!r}"[:160]})
+    # values that are instances of SUBCLASSES of int (IntEnum members - the library's own ErrorCode is one - and a plain
+    # subclass): members exactly when their integer value is in range, returned unchanged by the constructor
+    import subprocess as _sp
+    sub_ops = []
+    for tname in DOC_INT:
+        lo, hi = DOC_INT[tname]
+        for z in sorted({lo, hi, lo - 1, hi + 1, 0, -1, 1, 5}):
+            sub_ops.append([tname, z, "enum" if (z + len(tname)) % 2 else "sub"])
+    pr = _sp.Popen([common.PY, str(common.VERIF / "harness" / "c12_worker.py")], stdin=_sp.PIPE, stdout=_sp.PIPE, stderr=_sp.PIPE,
+                   text=True, env=common.child_env())
+    try:
+        so, se = pr.communicate(json.dumps(sub_ops), timeout=60)
+    except _sp.TimeoutExpired:
+        pr.kill()
+        so, se = pr.communicate()
+    sub_out = [json.loads(line) for line in so.splitlines() if line.strip()]
+    for k, op in enumerate(sub_ops):
+        want = DOC_INT[op[0]][0] <= op[1] <= DOC_INT[op[0]][1]
+        if k >= len(sub_out):
+            prop_bad.append({"type": op[0], "value": f"{op[2]} int subclass instance with value {op[1]}",
+                             "what": "isinstance / the constructor did not return within 60 s (or the probe died): " + se[-200:]})
+            break
+        inst, ctor = sub_out[k]
+        if inst is not want or ctor != ("same" if want else "TypeError"):
+            prop_bad.append({"type": op[0], "value": f"{op[2]} int subclass instance with value {op[1]}",
+                             "what": f"isinstance={inst}, constructor={ctor}; the documented domain says member={want}"})
     # membership must not depend on the process's local time zone
     from .. import tzprobe
     tz_ops = []
